@@ -129,11 +129,88 @@ ALIGNS = {"post": sp.AlignmentMode.POST_PREAMBLE, "parallel": sp.AlignmentMode.P
           "equal": sp.AlignmentMode.EQUAL_PREAMBLE}
 
 
+NAN = -999      # token for float('nan') in recorded inputs / values
+
+
+def _enc_num(x):
+    if isinstance(x, float) and x != x:
+        return NAN
+    import math
+    return int(math.floor(x)) if isinstance(x, (int, float)) else x
+
+
+def build_continuous(case, objs, built):
+    """ContinuousFactor objects for case["continuous"]; custom distributions log their inputs in built.cont_log"""
+    built.cont = {}
+    built.cont_log = []
+    F = case["factors"]
+    for ci, cd in enumerate(case.get("continuous", [])):
+        deps = []
+        for d in cd.get("deps", []):
+            if d["k"] == "d":
+                deps.append(objs[d["f"] - 1])
+            elif d["k"] == "c":
+                deps.append(built.cont[d["name"]])
+            else:
+                deps.append(sp.ContinuousFactorWindow([built.cont[n] for n in d["names"]], d["width"], d.get("stride", 1), d.get("start")))
+        if cd["dist"] == "uniform":
+            dist = sp.UniformDistribution(*cd.get("args", [0, 1]))
+        elif cd["dist"] == "gaussian":
+            dist = sp.GaussianDistribution(*cd.get("args", [0, 1]))
+        elif cd["dist"] == "exponential":
+            dist = sp.ExponentialDistribution(*cd.get("args", [1]))
+        elif cd["dist"] == "lognormal":
+            dist = sp.LogNormalDistribution(*cd.get("args", [0, 1]))
+        else:
+            stream = cd["stream"]
+            state = {"k": 0}
+
+            def fn(*inputs, _cd=cd, _ci=ci, _state=state, _stream=stream):
+                enc = []
+                for d, x in zip(_cd.get("deps", []), inputs):
+                    if d["k"] == "d":
+                        enc.append([_enc_arg(F[d["f"] - 1], x)])
+                    elif d["k"] == "c":
+                        enc.append([_enc_num(x)])
+                    else:
+                        xs = x if isinstance(x, list) else [x]
+                        enc.append([[_enc_num(w[-j]) for j in range(d["width"] - 1, -1, -1)] for w in xs])
+                v = _stream[_state["k"] % len(_stream)]
+                _state["k"] += 1
+                built.cont_log.append({"f": _ci + 1, "inputs": enc, "v": v})
+                return v
+            if deps:
+                dist = sp.CustomDistribution(fn, deps, cumulative=cd.get("cumulative", False))
+            else:
+                dist = sp.CustomDistribution(fn, cumulative=cd.get("cumulative", False))
+        built.cont[cd["name"]] = sp.ContinuousFactor(cd["name"], distribution=dist)
+    return built.cont
+
+
+def _cont_pred(p):
+    op, k = p["op"], p.get("k", 0)
+    if op == "lt":
+        return (lambda a: a < k)
+    if op == "ne":
+        return (lambda a: a != k)
+    if op == "lt2":
+        return (lambda a, b: a < b)
+    if op == "sumle":
+        return (lambda a, b: a + b <= k)
+    raise ValueError(op)
+
+
 def build_block(case, objs, b, built=None):
     op = b["op"]
-    cons = [build_constraint(case, objs, k, built) for k in b.get("cons", [])]
+    cons = [build_constraint(case, objs, k, built) for k in b.get("cons", []) if k["c"] != "Continuous"]
+    if built is not None and b.get("cont"):
+        for k in b.get("cons", []):
+            if k["c"] == "Continuous":
+                from sweetpea._internal.constraint import ContinuousConstraint    # documented as sweetpea.ContinuousConstraint but not exported
+                cons.append(ContinuousConstraint([built.cont[n] for n in k["names"]], _cont_pred(k["pred"])))
+    extra = [built.cont[n] for n in b.get("cont", [])] if built is not None and b.get("cont") else []
     if op == "Cross":
-        blk = sp.CrossBlock([objs[i - 1] for i in b["design"]], [objs[i - 1] for i in b["crossing"]],
+        blk = sp.CrossBlock([objs[i - 1] for i in b["design"]] + extra, [objs[i - 1] for i in b["crossing"]],
                             cons, b.get("rcc", True))
     elif op == "Multi":
         blk = sp.MultiCrossBlock([objs[i - 1] for i in b["design"]],
@@ -163,6 +240,7 @@ def build_block(case, objs, b, built=None):
 def build(case):
     built = Built()
     built.factors = build_factors(case)
+    build_continuous(case, built.factors, built)
     built.block = build_block(case, built.factors, case["block"], built)
     return built
 
@@ -243,7 +321,8 @@ def encode_experiment(case, exp, ids=None):
                 else:
                     row.append(-1)
             rows.append(row)
-    extra = [k for k in exp.keys() if not any(F[i - 1]["name"] == k for i in ids)]
+    cont_names = [cd["name"] for cd in case.get("continuous", [])]
+    extra = [k for k in exp.keys() if not any(F[i - 1]["name"] == k for i in ids) and k not in cont_names]
     hidden = [repr(k) for k in exp.keys() if isinstance(k, HiddenName)]
     return {"n": n, "s": rows, "extra": [str(k) for k in extra], "hidden": hidden}
 
